@@ -400,12 +400,15 @@ pub fn gen_core(m: &Material, rng: &mut Rng, share_vars: bool, depth: usize) -> 
     core.insert("utils".into(), Value::Object(utils));
   }
   // global utility rules (RuleCore: rule + constraints), usable through `matches`
-  if rng.chance(1, 4) {
+  if rng.chance(1, 4) || (!k.utils.is_empty() && rng.chance(1, 4)) {
     let n = 1 + rng.below(2);
     let mut globals = vec![];
     for i in 0..n {
       let mut g = serde_json::Map::new();
-      g.insert("id".into(), json!(format!("g{i}")));
+      // sometimes a global utility carries the id of a local one: the local definition must win
+      // everywhere (matching, potential_kinds, kind caches)
+      let gid = if i == 0 && k.utils.iter().any(|u| u == "u0") && rng.chance(1, 3) { "u0".to_string() } else { format!("g{i}") };
+      g.insert("id".into(), json!(gid));
       let mut gk = Knobs { share_vars, utils: k.utils.iter().filter(|u| u.starts_with('g')).cloned().collect(), var_counter: k.var_counter };
       let gd = 1 + rng.below(2);
       g.insert("rule".into(), gen_rule(m, rng, &mut gk, gd));
@@ -417,11 +420,22 @@ pub fn gen_core(m: &Material, rng: &mut Rng, share_vars: bool, depth: usize) -> 
       }
       k.var_counter = gk.var_counter;
       globals.push(Value::Object(g));
-      k.utils.push(format!("g{i}"));
+      if !k.utils.contains(&gid) {
+        k.utils.push(gid);
+      }
     }
     core.insert("globals".into(), json!(globals));
   }
-  let rule = gen_rule(m, rng, &mut k, depth);
+  let mut rule = gen_rule(m, rng, &mut k, depth);
+  // a shadowed id is worth using: reference it from the rule itself most of the time
+  let shadowed = core.get("globals").and_then(|g| g.as_array()).map(|a| a.iter().any(|g| g["id"] == "u0")).unwrap_or(false);
+  if shadowed && rng.chance(3, 4) {
+    rule = match rng.below(3) {
+      0 => json!({"matches": "u0"}),
+      1 => json!({"all": [{"matches": "u0"}, rule]}),
+      _ => json!({"any": [{"matches": "u0"}, rule]}),
+    };
+  }
   core.insert("rule".into(), rule);
   if rng.chance(1, 5) {
     let var = if share_vars { ["A", "B"][rng.below(2)].to_string() } else { format!("V{}", 1 + rng.below(k.var_counter.max(1))) };
